@@ -77,7 +77,7 @@ fn sort_clause(ws: &[u32]) -> Result<(), String> {
 }
 
 pub fn run(run: &mut Run) -> PResult {
-    run.rule = "all 52 x 52 pairs of deck cards for the numeric order; sorting: every ordered tuple of sizes 2..7 over a 6-word alphabet {blank, a low card, a high card, a flagged card, 0xFFFFFFFF, 1} (6^2..6^7) and proptest arrays of arbitrary u32 words with forced duplicates, sizes 2..7: output = the input multiset in non-increasing order (both directions), sort() leaves the original untouched, sort_in_place agrees, idempotent. Non-trivial = inputs with a duplicate word or a non-card word; distinct by 64-bit hash of the array".into();
+    run.rule = "all 52 x 52 pairs of deck cards for the numeric order; sorting: every ordered tuple of sizes 2..7 over an 8-word alphabet {blank, a low card, a high card, a flagged card, 0xFFFFFFFF, 1, 0x80000000, a card with its lowest bit flipped} (8^2..8^7) and proptest arrays of arbitrary u32 words with forced duplicates, sizes 2..7: output = the input multiset in non-increasing order (both directions), sort() leaves the original untouched, sort_in_place agrees, idempotent. Non-trivial = inputs with a duplicate word or a non-card word; distinct by 64-bit hash of the array".into();
     super::regress::replay_dir(run, "C11", check_case)?;
     let deck = ckc_rs::deck::POKER_DECK.arr();
     let mut n = 0u64;
@@ -94,17 +94,19 @@ pub fn run(run: &mut Run) -> PResult {
     // E: small alphabet, all tuples
     {
         let a = card::DECK;
-        let sym: [u32; 6] = [0, a[51], a[0], a[20] | card::TRIPS, u32::MAX, 1];
+        // blank, a low card, a high card, a flagged card, all ones, 1 (shares its upper 20 bits with
+        // blank), the bare top bit, a word differing from a card only below the suit nibble
+        let sym: [u32; 8] = [0, a[51], a[0], a[20] | card::TRIPS, u32::MAX, 1, 0x8000_0000, a[51] ^ 1];
         let mut n = 0u64;
         let mut nt = 0u64;
         for size in 2..=7usize {
-            let total = 6usize.pow(size as u32);
+            let total = 8usize.pow(size as u32);
             for idx in 0..total {
                 let mut x = idx;
                 let mut ws = Vec::with_capacity(size);
                 for _ in 0..size {
-                    ws.push(sym[x % 6]);
-                    x /= 6;
+                    ws.push(sym[x % 8]);
+                    x /= 8;
                 }
                 n += 1;
                 let mut s = ws.clone();
@@ -113,17 +115,17 @@ pub fn run(run: &mut Run) -> PResult {
                     nt += 1;
                 }
                 if let Err(m) = sort_clause(&ws) {
-                    run.generator("all tuples of sizes 2..7 over 6 words", "exhaustive", None, n, nt, "");
+                    run.generator("all tuples of sizes 2..7 over 8 words", "exhaustive", None, n, nt, "");
                     return run.violation("C11.sort", &card::render_hand(&ws), hand_json(&ws), &m);
                 }
             }
         }
-        run.generator("all tuples of sizes 2..7 over 6 words", "exhaustive", Some(n), n, nt, "6^2 + ... + 6^7 ordered arrays");
+        run.generator("all tuples of sizes 2..7 over 8 words", "exhaustive", Some(n), n, nt, "8^2 + ... + 8^7 ordered arrays");
     }
     // R
     {
         let st = engine::RStats::new();
-        let cases = if run.tier == Tier::Thorough { 16_000_000 } else { 2_000_000 };
+        let cases = (if run.tier == Tier::Thorough { 16_000_000 } else { 2_000_000 }) / if run.is_twin() { 4 } else { 1 };
         let make = || {
         let word = prop_oneof![
             5 => any::<u32>(),
